@@ -65,8 +65,9 @@ impl Controller for StaticResourceController {
                 let index_html_in_directory = format!("{}{}", static_filepath, directory_index);
 
 
-                let boxed_file = File::open(&index_html_in_directory);
-                if boxed_file.is_err() {
+                // the index page has to be a regular file (a directory can be opened as well)
+                let boxed_index_md = metadata(&index_html_in_directory);
+                if boxed_index_md.is_err() || !boxed_index_md.unwrap().is_file() {
                     return false
                 }
 
@@ -100,9 +101,10 @@ impl Controller for StaticResourceController {
             }
 
             let static_filepath = boxed_static_filepath.unwrap();
-            let boxed_file = File::open(&static_filepath);
+            // the .html fallback has to be a regular file (a directory can be opened as well)
+            let boxed_md = metadata(&static_filepath);
 
-            boxed_file.is_ok() && is_matching_method
+            boxed_md.is_ok() && boxed_md.unwrap().is_file() && is_matching_method
         }
 
     }
